@@ -34,6 +34,8 @@ def tasks(tier):
             t.append(('conc_ratio', np_ + nb))
     t.append(('conc_short',))
     t.append(('float_targets', 7))
+    from contracts import propsets
+    t += propsets.unit_contract_tasks(tier, PID)      # 'equivalent spellings are interchangeable everywhere a quantity is accepted': Unit.convert's table
     from contracts import rounding_placement as RP
     t += [('rounding_placement',) + x for x in RP.tasks(tier, PID)]
     toks = 'thorough' if tier == 'thorough' else 'quick'
@@ -44,6 +46,11 @@ def tasks(tier):
 
 def run(kind, *args):
     return globals()['run_' + kind](*args)
+
+
+def run_unit_contract(*args):
+    from contracts import propsets
+    return propsets.run_unit_contract(PID, *args)
 
 
 def run_rounding_placement(*args):
